@@ -964,6 +964,99 @@ def coordinate_index_rule(ctx, rid: str, pid: str, floor: int = 0):
                m.rel, uses[0].lineno)
     return n
 
+
+_ABSENCE_TABLE = {}
+
+
+def _absence_table(repo):
+    """function name (unique in the repository, annotated `-> T | None` with T sized) -> [(module, function, call, how absence is tested)]"""
+    key = id(repo)
+    if key in _ABSENCE_TABLE:
+        return _ABSENCE_TABLE[key]
+    byname = {}
+    for c in repo.classes.values():
+        byname.setdefault(c.name, []).append(c)
+
+    def sized(t):
+        if t in ('list', 'tuple', 'dict', 'set', 'str', 'Sequence', 'frozenset'):
+            return True
+        return any('__len__' in k.methods or '__bool__' in k.methods for c in byname.get(t, []) for k in repo.mro(c))
+    defs = {}
+    for m, ci, fn in repo.all_functions():
+        defs.setdefault(fn.name, []).append(fn)
+    cands = {}
+    for name, fns in defs.items():
+        if len(fns) != 1 or fns[0].returns is None:
+            continue
+        r = ast.unparse(fns[0].returns).replace("'", '').replace('"', '')
+        if '| None' not in r and 'None |' not in r and 'Optional[' not in r:
+            continue
+        parts = [p_.strip() for p_ in r.replace('Optional[', '').rstrip(']').split('|') if p_.strip() != 'None']
+        if len(parts) == 1 and sized(parts[0].split('.')[-1].split('[')[0]):
+            cands[name] = parts[0]
+    table = {}
+    for m, ci, fn in repo.all_functions():
+        if m.rel.endswith('_test.py') or '/testing/' in m.rel:
+            continue
+        par = None
+        for c in ast.walk(fn):
+            if not (isinstance(c, ast.Call) and call_name(c).split('.')[-1] in cands):
+                continue
+            if par is None:
+                par = m.parents()
+            name = call_name(c).split('.')[-1]
+            p_ = par.get(c)
+            holder = p_ if isinstance(p_, ast.NamedExpr) else c
+            q = par.get(holder)
+            how = None
+            if isinstance(q, ast.Compare) and len(q.ops) == 1 and isinstance(q.ops[0], (ast.Is, ast.IsNot)) and isinstance(q.comparators[0], ast.Constant) and q.comparators[0].value is None:
+                how = 'none'
+            elif isinstance(q, (ast.If, ast.While, ast.IfExp)) and q.test is holder:
+                how = 'truth'
+            elif isinstance(q, ast.UnaryOp) and isinstance(q.op, ast.Not):
+                how = 'truth'
+            elif isinstance(q, ast.BoolOp):
+                how = 'truth'
+            elif isinstance(q, ast.Assign) and len(q.targets) == 1 and isinstance(q.targets[0], ast.Name):
+                v = q.targets[0].id
+                for t in ast.walk(fn):
+                    if isinstance(t, ast.Compare) and len(t.ops) == 1 and isinstance(t.ops[0], (ast.Is, ast.IsNot)) and isinstance(t.left, ast.Name) and t.left.id == v \
+                            and isinstance(t.comparators[0], ast.Constant) and t.comparators[0].value is None:
+                        how = 'none'
+                if how is None:
+                    for t in ast.walk(fn):
+                        if isinstance(t, (ast.If, ast.While, ast.IfExp)):
+                            u = t.test.operand if isinstance(t.test, ast.UnaryOp) and isinstance(t.test.op, ast.Not) else t.test
+                            if isinstance(u, ast.Name) and u.id == v:
+                                how = 'truth'
+            if how:
+                table.setdefault(name, []).append((m, ci, fn, c, how, cands[name]))
+    _ABSENCE_TABLE[key] = table
+    return table
+
+
+def absence_test_rule(ctx, rid: str, pid: str, floor: int = 0):
+    """Sibling call sites agree on how the absence of a result is tested."""
+    repo = ctx.repo
+    ctx.rule(rid, 'absent means None: for a repository function annotated `-> T | None` where T is sized (an empty T is falsy), a call site that tests the result by truthiness while '
+             'other call sites of the same function test `is None` / `is not None` treats the empty value as absent - one of the two beliefs is wrong, and it is the truthiness '
+             'one whenever an empty T is a legal result (an identity Pauli string has no factors)', floor=floor, style='COH')
+    table = _absence_table(repo)
+    mine = {(m.rel, fn.name) for m, ci, fn in _functions(repo, pid)}
+    n = 0
+    for name, sites in sorted(table.items()):
+        hows = {h for *_, h, _t in sites}
+        if 'none' not in hows:
+            continue
+        for m, ci, fn, c, how, t in sites:
+            if (m.rel, fn.name) not in mine:
+                continue
+            n += 1
+            ctx.ob(rid, f'{m.name}.{(ci.name + ".") if ci else ""}{fn.name}:{name}@{c.lineno - fn.lineno}', how == 'none', '' if how == 'none' else
+                   f'the result of {name}() ({t} | None) is tested by truthiness here, while {sum(1 for s_ in sites if s_[4] == "none")} other call site(s) test `is None`: an empty {t} is '
+                   'taken for "no result"', m.rel, c.lineno)
+    return n
+
 FLOORS = {   # (z_fwd, z_drop, z_pair): about two thirds of the instances confirmed on the tree the rules were armed on
     'C01': (7, 40, 11),
     'C02': (4, 55, 8),
@@ -1002,11 +1095,12 @@ def apply(ctx, pid: str, only=None):
         'z_first': lambda: emptiness_belief_rule(ctx, f'{pid}.z_first', pid, floor=0),
         'z_inv': lambda: inverted_relation_rule(ctx, f'{pid}.z_inv', pid, floor=0),
         'z_coord': lambda: coordinate_index_rule(ctx, f'{pid}.z_coord', pid, floor=0),
+        'z_none': lambda: absence_test_rule(ctx, f'{pid}.z_none', pid, floor=0),
     }
     out = {}
     for k, f in rules.items():
         if only is None or k in only:
             out[k] = f()
     ctx.decided.append(f'{pid}.z_* general rules on the functions attributed to this property: sibling calls forward the same parameters (z_fwd), a wrapper does not swallow an option its '
-                       'callee accepts (z_drop), positional pairing only over ordered collections (z_pair), presence of a key is not tested by truthiness of the value (z_get), constructors do not mutate their arguments (z_ctor), optional option bags are inputs only (z_opt), generators are consumed once (z_gen), a lazily memoised field is dropped wherever its source fields are reassigned (z_memo), x[0] / x[-1] only where the function\'s own emptiness test protects it (z_first), a back-mapping built in a nested loop does not drop owners (z_inv), a qubit coordinate becomes a position only after a sign check (z_coord)')
+                       'callee accepts (z_drop), positional pairing only over ordered collections (z_pair), presence of a key is not tested by truthiness of the value (z_get), constructors do not mutate their arguments (z_ctor), optional option bags are inputs only (z_opt), generators are consumed once (z_gen), a lazily memoised field is dropped wherever its source fields are reassigned (z_memo), x[0] / x[-1] only where the function\'s own emptiness test protects it (z_first), a back-mapping built in a nested loop does not drop owners (z_inv), a qubit coordinate becomes a position only after a sign check (z_coord), call sites of one `T | None` function agree that absent means None (z_none)')
     return out
